@@ -43,6 +43,10 @@ type Outcome struct {
 	Bs      map[string]interface{}
 	Emitted []interface{}
 	Why     string
+	// AtEnd: for "fail" and "null", the bindings as the program had them
+	// when it ended (what a native rendering that works in place leaves
+	// in the map it was given)
+	AtEnd map[string]interface{}
 }
 
 func isNum(x interface{}) (float64, bool) {
@@ -134,7 +138,7 @@ func (p *Prog) Run(bs map[string]interface{}) Outcome {
 			// list of bindings, or null) is kept in the bindings
 			bss, err := match.Match(jsongen.Copy(op.V), jsongen.Copy(cur[op.Keys[0]]), match.NewBindings())
 			if err != nil {
-				return Outcome{Kind: "fail", Why: "match error"}
+				return Outcome{Kind: "fail", Why: "match error", AtEnd: cur}
 			}
 			if bss == nil {
 				cur[op.K] = nil
@@ -158,22 +162,22 @@ func (p *Prog) Run(bs map[string]interface{}) Outcome {
 				emitted = append(emitted, jsongen.Copy(v))
 			}
 		case "throw":
-			return Outcome{Kind: "fail", Why: "throw"}
+			return Outcome{Kind: "fail", Why: "throw", AtEnd: cur}
 		case "outNaN":
-			return Outcome{Kind: "fail", Why: "unserialisable emission"}
+			return Outcome{Kind: "fail", Why: "unserialisable emission", AtEnd: cur}
 		case "spin":
-			return Outcome{Kind: "fail", Why: "timeout"}
+			return Outcome{Kind: "fail", Why: "timeout", AtEnd: cur}
 		case "returnNull":
-			return Outcome{Kind: "null", Emitted: emitted}
+			return Outcome{Kind: "null", Emitted: emitted, AtEnd: cur}
 		case "returnScalar":
-			return Outcome{Kind: "fail", Why: "not bindings"}
+			return Outcome{Kind: "fail", Why: "not bindings", AtEnd: cur}
 		case "returnTrap":
 			// the script's result cannot be taken over: reading one of
 			// its properties throws
-			return Outcome{Kind: "fail", Why: "result cannot be exported"}
+			return Outcome{Kind: "fail", Why: "result cannot be exported", AtEnd: cur}
 		case "acceptIf":
 			if !accept(cur[op.K], op.Rel, op.V) {
-				return Outcome{Kind: "null", Emitted: emitted}
+				return Outcome{Kind: "null", Emitted: emitted, AtEnd: cur}
 			}
 		}
 	}
@@ -325,6 +329,18 @@ func (p *Prog) Native(mode NativeMode) core.Action {
 		if mode == NativeScribble && bs != nil {
 			n, _ := bs["scribbled"].(float64)
 			bs["scribbled"] = n + 1
+		}
+		if mode == NativeInPlace && bs != nil && out.AtEnd != nil && (out.Kind == "fail" || out.Kind == "null") {
+			// native code that works on the map it is given has
+			// done so by the time it fails or declines
+			for k := range bs {
+				if _, keep := out.AtEnd[k]; !keep {
+					delete(bs, k)
+				}
+			}
+			for k, v := range out.AtEnd {
+				bs[k] = v
+			}
 		}
 		switch out.Kind {
 		case "fail":
